@@ -627,24 +627,27 @@ import numpy as np
 import oqupy
 assert os.path.realpath(oqupy.__file__).startswith(os.path.realpath(%(src)r))
 o = oqupy.operators
-def run(parallel):
-    chain = oqupy.SystemChain([2, 2, 2, 2])
-    for i in range(4):
+def run(parallel, n):
+    chain = oqupy.SystemChain([2] * n)
+    for i in range(n):
         chain.add_site_hamiltonian(i, 0.3*o.sigma('z') + 0.2*o.sigma('x'))
-    for i in range(3):
+    for i in range(n - 1):
         chain.add_nn_hamiltonian(i, 0.5*o.sigma('x'), o.sigma('x'))
         chain.add_nn_hamiltonian(i, 0.4*o.sigma('y'), o.sigma('y'))
-    mps = oqupy.AugmentedMPS([o.spin_dm('up')] + [o.spin_dm('down')]*3)
+    mps = oqupy.AugmentedMPS([o.spin_dm('up')] + [o.spin_dm('down')]*(n-1))
     pars = oqupy.PtTebdParameters(dt=0.1, order=2, epsrel=1e-10)
     cfg = {} if parallel is None else {'parallel': parallel}
-    t = oqupy.PtTebd(mps, chain, [None]*4, pars, dynamics_sites=[0,1,2,3],
-                     backend_config=cfg)
+    t = oqupy.PtTebd(mps, chain, [None]*n, pars,
+                     dynamics_sites=list(range(n)), backend_config=cfg)
     r = t.compute(2, progress_type='silent')
-    return np.concatenate([r['dynamics'][i].states.ravel() for i in range(4)])
+    return np.concatenate([r['dynamics'][i].states.ravel() for i in range(n)])
 if __name__ == '__main__':
-    a = run(None)
-    b = run(%(mode)r)
-    print('MAXDIFF %%.3e' %% float(np.max(np.abs(a-b))))
+    diff = 0.0
+    for n in (4, 2, 3):      # 2 sites: the odd layer of gates is empty
+        a = run(None, n)
+        b = run(%(mode)r, n)
+        diff = max(diff, float(np.max(np.abs(a-b))))
+    print('MAXDIFF %%.3e' %% diff)
 """
 
 
